@@ -209,7 +209,7 @@ theorem after_verbatim_normal (o : ObjRef) (ho : o.docLevel = false) (locals : L
   have hb : Balanced [Op.setVerbatim] := .op _ _ rfl .nil
   have e : [Op.push (some o) locals, .setVerbatim, .pop (some o)]
       = Op.push (some o) locals :: ([Op.setVerbatim] ++ [Op.pop (some o)]) := rfl
-  obtain ⟨g, ns, h, _, _⟩ := PlasVerif.Properties.C04.group_restores (some o) (some o) locals [.setVerbatim] hb hnd hcl c hc
+  obtain ⟨d, h, _⟩ := PlasVerif.Properties.C04.group_restores (some o) (some o) locals [.setVerbatim] hb hnd hcl c hc
   refine ⟨?_, ?_, ?_, ?_⟩
   · simp only [run, List.foldl, step]
     rw [PlasVerif.Proofs.Context.push_notDoc _ _ _ hnd]
